@@ -51,6 +51,8 @@ struct Shared {
     ticks: Cell<u64>,
     panic_at: Cell<Option<u64>>,
     last_kind: Cell<&'static str>,
+    /// how often the map of pool entry 3+i ran in the current round
+    map_runs: RefCell<Vec<u32>>,
 }
 
 #[derive(Debug)]
@@ -116,15 +118,18 @@ fn inner(seed: u64, actions: &mut Vec<String>, stats: &mut (bool, u64, u64), fau
     *sh.desired.borrow_mut() = vec![None; SLOTS];
     *sh.current.borrow_mut() = (0..SLOTS).map(|_| None).collect();
     *sh.inner.borrow_mut() = vec![None, None];
+    *sh.map_runs.borrow_mut() = vec![0; 3];
 
     // pool
     let xs: Vec<Var<i64>> = (0..3).map(|i| st.var(i as i64 + 1)).collect();
     let ms: Vec<Incr<i64>> = xs
         .iter()
-        .map(|x| {
+        .enumerate()
+        .map(|(i, x)| {
             let sh5 = sh.clone();
             x.map(move |v| {
                 sh5.tick("map");
+                sh5.map_runs.borrow_mut()[i] += 1;
                 v * 2
             })
         })
@@ -312,6 +317,7 @@ fn inner(seed: u64, actions: &mut Vec<String>, stats: &mut (bool, u64, u64), fau
     let outer = st.var(ms[0].clone());
     let joined = join(&outer.watch());
     let mut join_target = 3usize;
+    let mut join_target_prev = 3usize;
     let join_obs = Rc::new(joined.observe());
     *sh.probe.borrow_mut() = Some(Rc::downgrade(&join_obs));
 
@@ -404,6 +410,13 @@ fn inner(seed: u64, actions: &mut Vec<String>, stats: &mut (bool, u64, u64), fau
                     .collect();
                 *sh.expected.borrow_mut() = exp.clone();
                 sh.recomputes_this_round.set(0);
+                for r in sh.map_runs.borrow_mut().iter_mut() {
+                    *r = 0;
+                }
+                // pool maps that some live observer needed before or needs after this round
+                let needed_before: Vec<bool> = (0..3)
+                    .map(|i| join_target_prev == 3 + i || (e_obs.is_some() && sh.current.borrow().iter().flatten().any(|d| d.pool == 3 + i)))
+                    .collect();
                 let observed_before = e_obs.is_some();
                 let ticks_before = sh.ticks.get();
                 if let Some((fr, off)) = fault {
@@ -448,6 +461,16 @@ fn inner(seed: u64, actions: &mut Vec<String>, stats: &mut (bool, u64, u64), fau
                 rounds.push((round, sh.ticks.get() - ticks_before));
                 actions.push(format!("stabilise#{round} (recomputes={})", sh.recomputes_this_round.get()));
                 stats.1 += sh.recomputes_this_round.get() as u64;
+                for i in 0..3 {
+                    let needed_after = join_target == 3 + i || (e_obs.is_some() && !invalidated && sh.desired.borrow().iter().flatten().any(|p| *p == 3 + i));
+                    if sh.map_runs.borrow()[i] > 0 && !needed_before[i] && !needed_after {
+                        return Err(format!(
+                            "[C05] the map behind pool entry {} ran in stabilise#{round} although no live observer needs it (it is neither a current dependency of the observed expert node nor the join's target)",
+                            3 + i
+                        ));
+                    }
+                }
+                join_target_prev = join_target;
                 if let Some(p) = sh.problems.borrow().first() {
                     return Err(p.clone());
                 }
@@ -534,7 +557,7 @@ pub fn run(seed: u64, shard: u64, count: u64) -> J {
         if let Some(m) = o.violation {
             if violations.len() < 10 {
                 violations.push(J::obj(vec![
-                    ("property", J::s(if m.starts_with("[C07]") { "C07" } else { "C14" })),
+                    ("property", J::s(if m.starts_with("[C07]") { "C07" } else if m.starts_with("[C05]") { "C05" } else { "C14" })),
                     ("message", J::s(format!("{m}; history: {:?}", o.actions))),
                     ("argv", J::Arr(vec![J::s("expert-one"), J::s(hseed.to_string())])),
                 ]));
